@@ -135,6 +135,9 @@ Proof.
   - (* DropUnordered *) conn_case s p G. destruct (Nat.leb _ _); [|discriminate]. inversion A. cbn. same_conn_flags H G g.
   - (* StallTick *) conn_case s p G. inversion A. cbn. same_conn_flags H G g.
   - (* Endgame *) inversion A. cbn. eapply agrees_ext; [eassumption|]. intro; unfold gnext; cbn; apply pair_eta.
+  - (* LoseInterest *) conn_case s p G. inversion A. subst. eapply agrees_ext; [eassumption|]. intro; unfold gnext; cbn; apply pair_eta.
+  - (* QueueChoke *) conn_case s p G. inversion A. subst. eapply agrees_ext; [eassumption|]. intro; unfold gnext; cbn; apply pair_eta.
+  - (* QueueUnchoke *) conn_case s p G. inversion A. subst. eapply agrees_ext; [eassumption|]. intro; unfold gnext; cbn; apply pair_eta.
   - (* SnapConn *) conn_case s p G. match type of A with (if ?b then _ else _) = _ => destruct b end; [|discriminate].
     inversion A. subst. eapply agrees_ext; [eassumption|]. intro; unfold gnext; cbn; apply pair_eta.
   - (* SnapGlobal *) match type of A with (if ?b then _ else _) = _ => destruct b end; [|discriminate].
